@@ -62,11 +62,29 @@ func (g *cgen) node(d int, inLoop, inFunc bool) *cnode {
 		for i := 1 + g.r.Intn(3); i > 0; i-- {
 			c := g.r.Intn(2) == 0
 			n.conds = append(n.conds, c)
+			var l string
 			if c {
-				n.lit = append(n.lit, truthy[g.r.Intn(len(truthy))])
+				l = truthy[g.r.Intn(len(truthy))]
 			} else {
-				n.lit = append(n.lit, falsy[g.r.Intn(len(falsy))])
+				l = falsy[g.r.Intn(len(falsy))]
 			}
+			// the condition value reaches the test through different routes (literal, slice element, map entry,
+			// result of a script function or of a Go function): its truthiness must not depend on the route
+			switch g.r.Intn(8) {
+			case 0:
+				l = "[" + l + "][0]"
+			case 1:
+				l = "{\"k\": " + l + "}.k"
+			case 2:
+				l = "{\"k\": " + l + "}[\"k\"]"
+			case 3:
+				l = "func() { return " + l + " }()"
+			case 4:
+				l = "func() { return [" + l + "][0] }()"
+			case 5:
+				l = "id(" + l + ")"
+			}
+			n.lit = append(n.lit, l)
 			n.kids = append(n.kids, g.seq(d-1, inLoop, inFunc))
 		}
 		if g.r.Intn(2) == 0 {
